@@ -42,7 +42,7 @@ def bounds_of(spec):
 class Landscape:
     """the synthetic NLL as a pure function of {name: value} and the coordinate flags of the complex parameters"""
 
-    def __init__(self, names, cplx_flags, seed, gauss=None, linear=False):
+    def __init__(self, names, cplx_flags, seed, gauss=None, linear=False, centre=None):
         import numpy as np
         self.np = np
         self.names = list(names)
@@ -54,6 +54,12 @@ class Landscape:
         self.v = np.array([rnd.uniform(-0.5, 0.5) for _ in range(n)])
         self.c = np.array([rnd.uniform(-1.5, 1.5) for _ in range(n)])
         self.d = np.array([rnd.uniform(-2.0, 2.0) for _ in range(n)])
+        # `centre`: names whose optimum is placed by the scenario (e.g. on the far side of a declared bound)
+        for k, val in (centre or {}).items():
+            if k in self.idx:
+                self.c[self.idx[k]] = float(val)
+                self.d[self.idx[k]] = float(val)
+                self.v[self.idx[k]] = 0.0
         self.eps = 0.2
         self.offset = rnd.uniform(-50.0, 50.0)
         self.gauss = {k: (float(m), float(s)) for k, (m, s) in (gauss or {}).items()}
@@ -129,13 +135,14 @@ class Landscape:
 
 
 class SynthFCN:
-    def __init__(self, vm, seed, gauss=None, linear=False):
+    def __init__(self, vm, seed, gauss=None, linear=False, centre=None):
         import numpy as np
         self.np = np
         self.vm = vm
         self.cached_nll = None
         self.n_call = 0
-        self.land = Landscape(list(vm.variables), {k: bool(v) for k, v in vm.complex_vars.items()}, seed, gauss, linear)
+        self.land = Landscape(list(vm.variables), {k: bool(v) for k, v in vm.complex_vars.items()}, seed, gauss, linear, centre)
+        self.bnd_seen = None  # names that had a registered bound transform at some evaluation since the harness reset it
         self.trace = []  # ('set', values of all names after the move) per evaluation, used by the search oracle
 
     # -- the interface tf_pwa.fit uses -------------------------------------------------------
@@ -161,6 +168,9 @@ class SynthFCN:
             self.land.cplx[c] = bool(self.vm.complex_vars[c])
 
     def _eval(self, x, order):
+        if self.bnd_seen is None:
+            self.bnd_seen = []
+        self.bnd_seen += [k for k in self.vm.bnd_dic if k not in self.bnd_seen]
         self.vm.set_all(x)
         self._sync_flags()
         self.n_call += 1
